@@ -21,7 +21,8 @@ func init() {
 			"where both range tests failed, cursorY+1 under cursorY+1 <= viewportHeight, or cursorX+1 followed on every path by the > viewportWidth test " +
 			"whose true side line-feeds with carriage return; (R3) every store to cursorX, cursorY or viewportY is followed on every path to the function " +
 			"exit by updateDataOffset (directly or through a callee that always calls it) or is the paired incremental update dataOffset += 3; " +
-			"updateDataOffset computes (viewportY + cursorY - 1) * viewportWidth * 3 + (cursorX - 1) * 3. Decides these clauses, not equality with a reference terminal.",
+			"updateDataOffset computes (viewportY + cursorY - 1) * viewportWidth * 3 + (cursorX - 1) * 3; (R4) when the scrollback is used up lf moves exactly the viewport's lines " +
+			"[viewportY, viewportY+viewportHeight-1) up by one line (byte loop or copy idiom) and blanks exactly the viewportWidth cells of the last line. Decides these clauses, not equality with a reference terminal.",
 		EnumRule: "obligations per rule and construct (function + store / case)",
 		Assumptions: []string{
 			"stores into a VT freshly allocated in the same function (constructor) are exempt by role",
@@ -36,6 +37,8 @@ func init() {
 			{Name: "line feed without carriage return on wrap", File: "kernel/device/tty/vt.go", Old: "\t\tif t.cursorX > t.viewportWidth {\n\t\t\tt.lf(true)", New: "\t\tif t.cursorX > t.viewportWidth {\n\t\t\tt.lf(false)", Expect: "C17.R2"},
 			{Name: "cursorY advanced past the viewport", File: "kernel/device/tty/vt.go", Old: "\tcase t.cursorY+1 <= t.viewportHeight:", New: "\tcase t.cursorY <= t.viewportHeight:", Expect: "C17.R2"},
 			{Name: "offset formula ignores viewportY", File: "kernel/device/tty/vt.go", Old: "uint((t.viewportY+(t.cursorY-1))*(t.viewportWidth*3) + ((t.cursorX - 1) * 3))", New: "uint((t.cursorY-1)*(t.viewportWidth*3) + ((t.cursorX - 1) * 3))", Expect: "C17.R3"},
+			{Name: "scroll moves the whole buffer", File: "kernel/device/tty/vt.go", Old: "\t\t\tfor offset := startOffset; offset < endOffset; offset++ {", New: "\t\t\tfor offset := startOffset / 2; offset < endOffset; offset++ {", Expect: "C17.R4"},
+			{Name: "blanking misses the last cell", File: "kernel/device/tty/vt.go", Old: "for offset := endOffset; offset < endOffset+stride; offset += 3 {", New: "for offset := endOffset; offset < endOffset+stride-3; offset += 3 {", Expect: "C17.R4"},
 			{Name: "viewport advance without offset refresh", File: "kernel/device/tty/vt.go", Old: "\n\tt.updateDataOffset()\n}\n\n// updateDataOffset", New: "\n\tif withCR {\n\t\tt.updateDataOffset()\n\t}\n}\n\n// updateDataOffset", Expect: "C17.R3"},
 		},
 	})
@@ -167,6 +170,10 @@ func runC17(c *Ctx) {
 	x.c17r1()
 	x.c17r2()
 	x.c17r3()
+	c.floor("C17.R4", 2)
+	mb, cb := x.scrollArmForms()
+	c.check(mb == "", "C17.R4", "scroll-move "+c.K.fnName(x.lf), "the viewport's lines [viewportY, viewportY+viewportHeight-1) move up by exactly one line; the scrollback above them does not move", mb, c.K.pos(x.lf.Pos()))
+	c.check(cb == "", "C17.R4", "scroll-clear "+c.K.fnName(x.lf), "exactly the viewportWidth cells of the last viewport line are blanked with (' ', defaultFg, defaultBg)", cb, c.K.pos(x.lf.Pos()))
 }
 
 func (x *vtx) c17r1() {
@@ -880,7 +887,9 @@ func (x *vtx) c18r2() {
 		}
 		c.check(bad == "", "C18.R2", key, "Scroll(ScrollDirUp, 1) then Fill(1, cursorY, termWidth, 1, defaultFg, defaultBg) on every path of the active side", bad, gl.posOf(f.Edge.From))
 	}
-	// cursorY must not change between the scroll decision and the Fill (it is the last viewport line)
+	// the buffer's own blanking of the new last line covers what the console's Fill covers (a whole row)
+	_, cb := x.scrollArmForms()
+	c.check(cb == "", "C18.R2", "mirror-scroll-clear "+m.fnName(x.lf), "the buffer blanks the same viewportWidth cells of the last line that Fill(1, cursorY, termWidth, 1, ...) blanks on the console", cb, m.pos(x.lf.Pos()))
 	_ = strings.Join
 }
 
